@@ -12,9 +12,11 @@ case $PKGLINE in roaring|roaring_test) D=. ;; roaring64|roaring64_test) D=roarin
 cd $WT
 cp $S/demo_test.go $D/zz_seed_demo_test.go
 WITH=$(cd $D && go test -vet=off -count=1 -timeout 300s -run 'TestSeedDemo$' . 2>&1 | tail -1)
-git stash -q
+# (git stash is shared between worktrees: revert with apply -R instead)
+git diff -- . ':(exclude).seed' ':(exclude)*zz_seed_demo_test.go' > $S/.confirm.diff
+git apply -R $S/.confirm.diff
 WITHOUT=$(cd $D && go test -vet=off -count=1 -timeout 300s -run 'TestSeedDemo$' . 2>&1 | tail -1)
-git stash pop -q
+git apply $S/.confirm.diff
 rm -f $D/zz_seed_demo_test.go
 SKIP='TestBatchEqualExistenceAuthority|TestBSI64BatchEqualExistenceAuthority|TestLargeFile'
 SUITE=$(go test -vet=off -count=1 -timeout 25m -skip "$SKIP" ./... 2>&1 | grep -E "^(ok|FAIL|---)" | tr '\n' ';')
